@@ -357,6 +357,10 @@ def c05(chk):
     spec_stage(chk, "procs_restart_chain", "Reopen.tla", dict(Inst={"A"}, Keys=K1, MaxSteps=9 if quick else 11, MaxProcs=2 if quick else 3, SetRule=rule),
                view="View", emit="Emit", invariants=("XLastWriteWins",), properties=(), exe="procs", keep=restart_chain,
                sample=250 if quick else 4000, chunk=20)
+    # (c) Close and Open after concurrent executions: what the clients were told last is what comes back
+    progs = [p for p in programs_c06() if p["name"] in ("c06_two_writers", "c06_three_writers", "c06_tx_overwrite_autocommit_RC",
+                                                        "c06_own_write_vs_autocommit_RC", "c06_four_clients", "c06_delete_set_keys")]
+    conc_check(chk, progs, 60 if quick else 600, 10 if quick else 100, 2, family_owner="C06")
     chk.assumptions += ["processes end with all instances closed cleanly (kills are C04's quantifier)"]
 
 
@@ -637,6 +641,8 @@ def conc_check(chk, programs, dfs_runs, rnd_runs, preempt, family_owner=None, sc
         by_outcome[e["outcome"]] = by_outcome.get(e["outcome"], 0) + 1
         if e["outcome"] in ("deadlock", "panic", "crash", "reopen"):
             own = family_owner or "C06"
+            if e["outcome"] == "reopen" and chk.prop == "C05":
+                own = "C05"   # what Close and Open make of a concurrent execution belongs to C05 as much as to C06
             desc = "%s of the real code in program %s: %s" % (e["outcome"], e.get("program"), (e.get("detail") or "")[:800])
             if own == chk.prop:
                 chk.violation(desc, {"execution": {k: e.get(k) for k in ("program", "mode", "seed", "decisions", "gates", "detail")}})
@@ -1239,6 +1245,12 @@ def c10(chk):
     for rep in range(2 if quick else 6):
         os.environ["VERIF_SEED_SHIFT"] = str(rep)
         spec_stage(chk, "upload_%d" % rep, "Upload.tla", dict(Lens=lens, Kinds={"none", "readerr", "cancel", "cut"}, Variant=up_var, SendVariant="repaired"),
+                   invariants=("XNoTrace", "XNeverPartial"), **common)
+    # a cut connection that the client re-dials at once: gRPC may replay what was sent so far on the new connection. Whether it
+    # does depends on the moment of the cut, so these scenarios are repeated many times
+    for rep in range(8 if quick else 60):
+        os.environ["VERIF_SEED_SHIFT"] = str(100 + rep)
+        spec_stage(chk, "cut_storm_%d" % rep, "Upload.tla", dict(Lens={1, 3, 5, 33}, Kinds={"cut"}, Variant=up_var, SendVariant="repaired"),
                    invariants=("XNoTrace", "XNeverPartial"), **common)
     os.environ.pop("VERIF_SEED_SHIFT", None)
     chk.assumptions += ["no-space is injected at the content file's Write (fully, or after half of the chunk was stored), not produced by a full file system",
